@@ -97,6 +97,11 @@ class Report:
         if extra:
             cov.update(extra)
         cov["known_findings_hit"] = self.known_hits
+        keys = {}
+        for v in self.violations:
+            keys[str(v["key"])] = keys.get(str(v["key"]), 0) + 1
+        if keys:
+            cov["violation_keys"] = keys
         if self.notes:
             cov["notes"] = self.notes
         if not cov["samples"]:
